@@ -13,6 +13,7 @@ import subprocess
 import sys
 
 import coco
+from tx.tier import THOROUGH, pick
 from tx.p_c05 import ob, guarded
 
 B09DIR = os.path.join(os.path.dirname(coco.__file__), "b09")
@@ -135,9 +136,18 @@ def order_typing():
     return guarded("order", run)
 
 
+OWN_CLASSES = set()
+
+
 def persistent_state():
     def run():
         problems = []
+        global OWN_CLASSES
+        OWN_CLASSES = set()
+        for path in FILES:
+            for n in ast.walk(ast.parse(open(path).read())):
+                if isinstance(n, ast.ClassDef):
+                    OWN_CLASSES.add(n.name)
         for path in FILES:
             tree = ast.parse(open(path).read())
             fname = os.path.basename(path)
@@ -147,6 +157,32 @@ def persistent_state():
                     for t in st.targets:
                         if isinstance(t, ast.Name):
                             module_mutables[t.id] = st.lineno
+            # objects built once at import time and shared by every call: instances of the tool's own (mutable) classes at
+            # module level, mutable containers or such instances as class attributes
+            def is_shared_mutable(v):
+                if isinstance(v, (ast.List, ast.Dict, ast.Set, ast.ListComp, ast.DictComp, ast.SetComp)):
+                    return "a mutable container"
+                if isinstance(v, ast.Call):
+                    fn = ast.unparse(v.func).split(".")[-1]
+                    if fn in ("set", "list", "dict", "bytearray", "defaultdict", "OrderedDict", "deque", "Counter"):
+                        return "a mutable container"
+                    if fn in OWN_CLASSES:
+                        return "an instance of %s" % fn
+                return None
+            for st in tree.body:
+                if isinstance(st, (ast.Assign, ast.AnnAssign)) and st.value is not None:
+                    why = is_shared_mutable(st.value)
+                    if why and why.startswith("an instance"):
+                        tg = st.targets[0] if isinstance(st, ast.Assign) else st.target
+                        problems.append("%s:%d module-level %s is %s: every conversion shares (and may modify) it" % (fname, st.lineno, ast.unparse(tg), why))
+            for n in ast.walk(tree):
+                if isinstance(n, ast.ClassDef):
+                    for st in n.body:
+                        if isinstance(st, (ast.Assign, ast.AnnAssign)) and st.value is not None:
+                            why = is_shared_mutable(st.value)
+                            if why:
+                                tg = st.targets[0] if isinstance(st, ast.Assign) else st.target
+                                problems.append("%s:%d class attribute %s.%s is %s shared by all instances" % (fname, st.lineno, n.name, ast.unparse(tg), why))
             for n in ast.walk(tree):
                 if isinstance(n, ast.Global) or isinstance(n, ast.Nonlocal):
                     problems.append("%s:%d global/nonlocal statement" % (fname, n.lineno))
@@ -187,11 +223,11 @@ def confirmations():
                 "o = convert(%r, initialize_vars=True, default_str_storage=80, output_dependencies=True, procname='p')\n"
                 "print(hashlib.sha256(o.encode()).hexdigest())" % PROG_A)
         hashes = set()
-        for seed in range(6):
+        for seed in range(pick(6, 32)):
             env = dict(os.environ, PYTHONHASHSEED=str(seed), PYTHONPATH=repo)
             p = subprocess.run([sys.executable, "-c", code], capture_output=True, text=True, env=env)
             hashes.add(p.stdout.strip() or p.stderr[-200:])
-        res.append(ob("confirm/hash seeds 0..5 give one output", len(hashes) == 1, "1 distinct output", "%d distinct outputs" % len(hashes), bounded="6 hash seeds, one program with several implicit arrays, strings and dependencies"))
+        res.append(ob("confirm/hash seeds 0..%d give one output" % (pick(6, 32) - 1), len(hashes) == 1, "1 distinct output", "%d distinct outputs" % len(hashes), bounded="%d hash seeds," % pick(6, 32) + " one program with several implicit arrays, strings and dependencies"))
         from coco.b09.compiler import convert
         kw = dict(output_dependencies=True, procname="p", default_str_storage=80)
         a1 = convert(PROG_A, **kw)
@@ -223,6 +259,37 @@ def decoders_functional():
                     problems.append("%s:%d memoised function %s" % (name, n.lineno, n.name))
                 if isinstance(n, ast.Attribute) and ast.unparse(n) in ("os.environ",):
                     problems.append("%s:%d reads the environment" % (name, n.lineno))
+            # module-level mutable containers: inside functions they may only be read (indexed, iterated, measured)
+            mutables = {}
+            for st in tree.body:
+                if isinstance(st, (ast.Assign, ast.AnnAssign)) and st.value is not None:
+                    v = st.value
+                    is_mut = isinstance(v, (ast.List, ast.Dict, ast.Set, ast.ListComp, ast.DictComp, ast.SetComp)) \
+                        or (isinstance(v, ast.BinOp) and isinstance(v.left, (ast.List,)) or isinstance(v, ast.BinOp) and isinstance(v.right, (ast.List,))) \
+                        or (isinstance(v, ast.Call) and ast.unparse(v.func) in ("list", "dict", "set", "bytearray", "collections.defaultdict", "defaultdict", "io.BytesIO", "BytesIO"))
+                    if is_mut:
+                        for t in (st.targets if isinstance(st, ast.Assign) else [st.target]):
+                            if isinstance(t, ast.Name):
+                                mutables[t.id] = st.lineno
+            parents = {}
+            for n in ast.walk(tree):
+                for c in ast.iter_child_nodes(n):
+                    parents[c] = n
+            for fn in [n for n in ast.walk(tree) if isinstance(n, (ast.FunctionDef, ast.Lambda))]:
+                for n in ast.walk(fn):
+                    if isinstance(n, ast.Name) and n.id in mutables:
+                        par = parents.get(n)
+                        read_only = (
+                            (isinstance(par, ast.Subscript) and par.value is n and isinstance(par.ctx, ast.Load))
+                            or (isinstance(par, ast.Call) and n in par.args and ast.unparse(par.func) in ("len", "enumerate", "sorted", "tuple", "sum", "min", "max", "bytes"))
+                            or (isinstance(par, (ast.For, ast.comprehension)) and par.iter is n)
+                            or (isinstance(par, ast.Compare) and n in par.comparators)
+                        )
+                        if not read_only:
+                            problems.append("%s:%d module-level container %s (line %d) is %s inside %s: it outlives the call" % (
+                                name, n.lineno, n.id, mutables[n.id],
+                                "written" if isinstance(par, ast.Subscript) and not isinstance(par.ctx, ast.Load) else "aliased or passed on",
+                                getattr(fn, "name", "lambda")))
         return [ob("decoders/no hidden inputs or persistent state", not problems, "none", problems or "none")]
     return guarded("decoders", run)
 
